@@ -9,7 +9,7 @@ wt="/tmp/devseed-$$"
 git -C /repo worktree add -q --detach "$wt" HEAD || exit 2
 cleanup() { git -C /repo worktree remove --force "$wt" >/dev/null 2>&1; rm -rf "/tmp/devseed-out-$$" "$VROOT/.work/bin/dev.$$"*; }
 trap cleanup EXIT
-(cd "$wt" && git apply "$src/patch.diff") || { echo "patch does not apply"; exit 2; }
+"$(dirname "$0")/apply_seed.sh" "$wt" "$src/patch.diff" || { echo "patch does not apply"; exit 2; }
 mkdir -p "$VROOT/.work/bin"
 sed "s#=> /repo#=> $wt#" "$VROOT/harness/go.mod" > "$VROOT/.work/bin/dev.$$.mod"
 cp "$VROOT/harness/go.sum" "$VROOT/.work/bin/dev.$$.sum"
